@@ -188,7 +188,9 @@ class Section(Entity):
         if not isinstance(obj, Section):
             raise TypeError("Object to be copied is not a Section")
 
-        if obj._sec_parent:
+        # a sub-section lives in its parent's `sections` group (whichever
+        # way the handle was obtained), a top-level one in `metadata`
+        if isinstance(obj._parent, Section):
             src = "{}/{}".format("sections", obj.name)
         else:
             src = "{}/{}".format("metadata", obj.name)
